@@ -3,7 +3,7 @@
 
 def G(name, terms, inputs, rules, **kw):
     g = {"name": name, "terms": list(terms), "inputs": [(i, False) if isinstance(i, str) else i for i in inputs],
-         "rules": [(l, r.split()) for l, r in rules]}
+         "rules": [(l, r.split()) for l, r in rules]}   # RHS entries starting with "." are state markers, "{}" a mid-rule action
     g.update(kw)
     return g
 
@@ -40,6 +40,16 @@ PLAIN.append(G("p22", "ab", ["Sx"], [("Sx", "Ax Sx b"), ("Sx", ""), ("Ax", "a")]
 PLAIN.append(G("p23", "abc", ["Sx", "Lx"], [("Sx", "Lx c"), ("Lx", "Lx Ix"), ("Lx", "Ix"), ("Ix", "a"), ("Ix", "b")]))
 PLAIN.append(G("p24", "abc", ["Sx"], [("Sx", "Ox Px"), ("Ox", ""), ("Ox", "a"), ("Px", "Qx c"), ("Qx", ""), ("Qx", "Qx b")]))
 
+# state markers and mid-rule actions (C01 lists both)
+PLAIN.append(G("p25", "abc", ["Sx"], [("Sx", "c .mk Bx"), ("Sx", "b Bx b"), ("Bx", "a")]))
+PLAIN.append(G("p26", "abcqrx", ["Sx"], [("Sx", "x x Ex q"), ("Sx", "x Ex r"), ("Ex", "c .mk Bx"), ("Ex", "b Bx b"), ("Bx", "a")]))
+PLAIN.append(G("p27", "abc", ["Sx"], [("Sx", ".m1 a .m2 b"), ("Sx", ".m1 a c .m2")]))
+PLAIN.append(G("p28", "abc", ["Sx"], [("Sx", "a {} b {}"), ("Sx", "a {} c"), ("Sx", "b {} Sx")]))
+# a no-eoi input declared before a regular one
+PLAIN.append(G("p29", "abc", [("Px", True), "Fx"], [("Px", "a b"), ("Fx", "Px c"), ("Fx", "Fx Px c")]))
+# more rules than terminals, lookahead states encoded right after shift-only states (exercises the scratch counters of Optimize/defaultReduce)
+PLAIN.append(G("p30", "abc", ["Ix"], [("Ix", "a b Lx a"), ("Ix", "Nx"), ("Ix", "c"), ("Lx", "b Lx"), ("Lx", ""), ("Nx", "a c c"), ("Nx", "a c")]))
+PLAIN.append(G("p31", "abc", ["Ix"], [("Ix", "a b Lx a"), ("Ix", "Nx"), ("Lx", "b Lx"), ("Lx", ""), ("Nx", "a c c"), ("Nx", "a c"), ("Nx", "a a Lx c"), ("Ix", "c Nx"), ("Ix", "c c")]))
 
 # ---- precedence / associativity (C04, also used by C05 for explicit nonassoc errors) ----
 PREC = [
